@@ -64,6 +64,12 @@ Definition update_entry (e : centry) (u : N * bool) : centry :=
 Definition apply_updates_list (l : list acand) (ups : list (N * bool)) : list acand :=
   ce_list (fold_left update_entry ups (mkCE l [])).
 
+(* authority.Update on the STATE begins with `if !entry.IsLinked() { return false, nil }`, IsLinked = Prev != nil || Next != nil:
+   the ONLY listed node has neither (Authority.Get special-cases "it's the only node", Update does not), so its Active flag
+   is not written, while Candidates.Update above does change the cached copy.  With two or more listed nodes both agree. *)
+Definition state_apply_updates (l : list acand) (ups : list (N * bool)) : list acand :=
+  match l with [_] => l | _ => apply_updates_list l ups end.
+
 Definition is_endorsor (e : centry) (a : N) : bool := existsb (fun c => ac_endorsor c =? a) (ce_list e).
 Definition invalidate (e : centry) : centry := mkCE (ce_list e) [].
 
